@@ -168,6 +168,14 @@ def obligations(tier, seed):
     obs.append(Ob(id='C15.isnan-copysign', prop='C15', group='C15.cmath1', prelude=PRE, wrappers=[wn, wnp, wcs], inputs=[('double', 'a'), ('double', 'b'), ('float', 'c')], body=body, fp=True,
                   contract='isnan(q), isnan(p) equal the raw isnan; copysign(feet(a), seconds(b)) has a\'s magnitude bits and b\'s sign bit, in feet',
                   functions_under_contract=('au::isnan', 'au::copysign')))
+    # abs on floating reps: std::abs clears the sign bit and nothing else (also for -0.0 and for NaNs), for every bit pattern
+    for rep in ('f64', 'f32'):
+        ctf = G.ctype(rep); bitsf = 'vf_f64_bits' if rep == 'f64' else 'vf_f32_bits'; mask = '0x7fffffffffffffffULL' if rep == 'f64' else '0x7fffffffu'
+        wabsf = Wrapper('w_abs_' + rep, ctf, [(ctf, 'a')], 'return au::abs(au::make_quantity<au::Feet>(a)).in(au::Feet{});')
+        obs.append(Ob(id='C15.abs.%s' % rep, prop='C15', group='C15.cmath1', prelude=PRE, wrappers=[wabsf], inputs=[(ctf, 'a')], fp=True,
+                      body='\n  CHECK(%s(%s(a)) == (%s(a) & %s), "abs-is-std-abs-the-sign-bit-is-cleared-and-nothing-else-changes");\n' % (bitsf, wabsf.name, bitsf, mask),
+                      contract='forall bit patterns a (%s): abs(feet(a)).in(feet) is std::abs(a): a with the sign bit cleared (also -0.0 -> +0.0 and NaNs)' % ctf,
+                      functions_under_contract=('au::abs',)))
     # ---- min / max / clamp / abs on quantities (integral, mixed units): equal to the operation on exactly scaled values in the common unit
     ct = 'int32_t'
     qa = 'au::make_quantity<au::Feet>(a)'; qb = 'au::make_quantity<au::Inches>(b)'; cu = 'au::CommonUnitT<au::Feet, au::Inches>'
